@@ -393,6 +393,9 @@ func (p *Processor) ChargingDataRelease(
 		return problemDetails
 	}
 
+	// the reference of a released session no longer designates anything
+	delete(ue.Cdr, chargingSessionId)
+
 	return nil
 }
 
